@@ -55,7 +55,7 @@ def gen_selections(rng, depth, frag_names, varnames, budget, pdir=0.25):
     return " ".join(parts)
 
 
-def gen_document(rng, max_depth=5, nfrags=None, nops=None, pdir=0.25):
+def gen_document(rng, max_depth=5, nfrags=None, nops=None, pdir=0.25, opnames=None):
     """Acyclic by construction: fragment Fi only spreads Fj with j > i."""
     nfrags = rng.randint(0, 4) if nfrags is None else nfrags
     nops = rng.randint(1, 3) if nops is None else nops
@@ -71,7 +71,8 @@ def gen_document(rng, max_depth=5, nfrags=None, nops=None, pdir=0.25):
                 "$%s: %s" % (v, rng.choice(["Boolean!", "Boolean!", "Boolean = true", "Boolean = false", "Boolean! = true"]))
                 for v in varnames) + ")"
         if nops > 1 or rng.random() < 0.5 or vd:
-            header = "%s Op%d%s " % (rng.choice(["query", "query", "mutation"]), i, vd)
+            header = "%s %s%s " % (rng.choice(["query", "query", "mutation"]),
+                                   opnames[i] if opnames else "Op%d" % i, vd)
         budget = [rng.randint(1, 14)]
         defs.append("%s{ %s }" % (header, gen_selections(
             rng, rng.randint(0, max_depth), frag_names, varnames, budget, pdir)))
